@@ -30,12 +30,14 @@ impl CaseSet {
     }
     /// runs the program on the implementation and records the case
     pub fn add(&mut self, tb: &[OpSpec], prog: Prog, queries: Vec<Query>, note: String, family: &'static str, size: usize,
-               oracle: impl FnOnce(&[Obs]) -> (Option<bool>, String)) {
+               oracle: impl FnOnce(&[Obs]) -> (Option<bool>, String)) -> usize {
         set_table(tb);
+        if std::env::var("VERIF_TRACE").is_ok() { eprintln!("TRACE {}", pretty_prog(&prog)); }
         let (_, obs) = observe(&prog, &queries);
         let (oracle_ok, oracle_note) = oracle(&obs);
         let tbi = self.table_index(tb);
         self.cases.push(Case { tb: tbi, prog, queries, obs, note, family, oracle_ok, oracle_note, size, nontrivial: size >= 2 });
+        self.cases.len() - 1
     }
     pub fn write(&self, out_dir: &str, shard_size: usize) -> std::io::Result<()> {
         std::fs::create_dir_all(out_dir)?;
